@@ -51,9 +51,9 @@ type Backend struct {
 }
 
 func NewBackend() (*Backend, error) {
-	l, err := net.Listen("tcp", "127.0.0.1:0")
+	l, err := Listen()
 	if err != nil {
-		return nil, fmt.Errorf("INFRA: listen: %w", err)
+		return nil, err
 	}
 	b := &Backend{L: l, release: make(chan struct{})}
 	b.wg.Add(1)
@@ -63,23 +63,27 @@ func NewBackend() (*Backend, error) {
 
 func (b *Backend) Addr() string { return b.L.Addr().String() }
 
-// Release lets every holding connection proceed.
+// Release lets every currently holding connection proceed.
 func (b *Backend) Release() {
 	b.mu.Lock()
 	defer b.mu.Unlock()
-	select {
-	case <-b.release:
-	default:
-		close(b.release)
-	}
+	close(b.release)
+	b.release = make(chan struct{})
+}
+
+// SetScript installs the reply script for subsequent requests.
+func (b *Backend) SetScript(f func(c *Captured) []Step) {
+	b.mu.Lock()
+	b.Script = f
+	b.mu.Unlock()
 }
 
 func (b *Backend) Close() {
 	b.mu.Lock()
 	b.closed = true
 	b.mu.Unlock()
-	b.Release()
 	b.L.Close()
+	b.Release()
 	b.wg.Wait()
 }
 
@@ -202,9 +206,15 @@ func (b *Backend) serve(conn net.Conn) {
 					_, _ = br.Peek(1)
 					close(gone)
 				}()
-				select {
-				case <-b.release:
-				case <-gone:
+				b.mu.Lock()
+				rel := b.release
+				closed := b.closed
+				b.mu.Unlock()
+				if !closed {
+					select {
+					case <-rel:
+					case <-gone:
+					}
 				}
 			}
 			if s.RST {
